@@ -11,6 +11,9 @@ use std::collections::{HashMap, VecDeque};
 pub enum RAct {
     /// reserve(n) + append n bytes
     Refill(usize),
+    /// append n bytes through another entry point (each reserves internally): 1 Extend<u8> with an exact size hint,
+    /// 2 Extend<u8> with lower bound 0 (a filter adaptor), 3 put_slice, 4 put_bytes, 5 chunk_mut()/advance_mut loop, 6 resize
+    RefillVia(usize, u8),
     /// split() -> part (frozen?)
     Split(bool),
     /// split_to(code) -> part (frozen?)   code: 0 = 1 byte, 1 = half, 2 = all but one
@@ -58,8 +61,12 @@ pub struct Params {
     pub quantum: usize,
     pub roundtrip: bool,
     pub unsplit: bool,
+    /// refill through every appending entry point, not only reserve + extend_from_slice
+    pub appends: bool,
     pub parity_odd: bool,
     pub max_states: usize,
+    /// wall-clock budget of one fixpoint search (a search that does not close in time is reported as non-exhaustive)
+    pub max_seconds: u64,
 }
 
 pub struct Sys {
@@ -91,6 +98,13 @@ impl Sys {
         if l <= p.max_leftover {
             for &n in &p.ns {
                 v.push(RAct::Refill(n));
+            }
+            if p.appends {
+                for &n in &p.ns {
+                    for mode in 1..=6u8 {
+                        v.push(RAct::RefillVia(n, mode));
+                    }
+                }
             }
         }
         if l > 0 {
@@ -171,6 +185,39 @@ impl Sys {
                 oracle::subject(|| {
                     self.buf.reserve(n);
                     self.buf.extend_from_slice(&data);
+                });
+            }
+            RAct::RefillVia(n, mode) => {
+                while self.q.len() > p.k {
+                    let old = oracle::harness(|| self.q.pop_front());
+                    oracle::subject(|| drop(old));
+                }
+                oracle::clear_events();
+                let fill = self.fill;
+                self.fill = self.fill.wrapping_add(1) | 1;
+                let data = oracle::harness(|| vec![fill; n]);
+                oracle::subject(|| {
+                    use bytes::BufMut;
+                    match mode {
+                        1 => self.buf.extend(data.iter().copied()),
+                        2 => self.buf.extend(data.iter().copied().filter(|_| true)),
+                        3 => self.buf.put_slice(&data),
+                        4 => self.buf.put_bytes(fill, n),
+                        5 => {
+                            let mut done = 0;
+                            while done < n {
+                                let c = self.buf.chunk_mut();
+                                let k = c.len().min(n - done);
+                                c[..k].copy_from_slice(&data[done..done + k]);
+                                unsafe { self.buf.advance_mut(k) };
+                                done += k;
+                            }
+                        }
+                        _ => {
+                            let l = self.buf.len();
+                            self.buf.resize(l + n, fill)
+                        }
+                    }
                 });
             }
             RAct::Split(f) => {
@@ -368,6 +415,7 @@ pub struct Outcome {
 
 /// BFS over canonical states to fixpoint.
 pub fn explore(p: &Params, rep: &mut Report) -> Outcome {
+    let t_start = std::time::Instant::now();
     let limit = live_limit(p);
     let mut ids: HashMap<u128, u32> = HashMap::new();
     let mut hists: Vec<Vec<RAct>> = vec![];
@@ -418,7 +466,9 @@ pub fn explore(p: &Params, rep: &mut Report) -> Outcome {
                     rep.violate("C02", "memory", &format!("{} | recycle history {}", v, hist_str(&h2)), &format!("{{\"engine\":\"recycle\",\"params\":{:?},\"history\":{:?}}}", p.name, hist_str(&h2)));
                 }
                 // (3) a reserve on an empty handle that is alone on a large-enough buffer never allocates
-                if let RAct::Refill(n) = a {
+                // (only entry points that start with one reserve(n) on the still empty handle: an Extend with lower
+                // bound 0 and the chunk_mut loop reserve piecemeal, on a handle that is no longer empty)
+                if let RAct::Refill(n) | RAct::RefillVia(n, 1) | RAct::RefillVia(n, 3) | RAct::RefillVia(n, 4) | RAct::RefillVia(n, 6) = a {
                     if was_empty_alone && !qlen_over && alloc_size >= n && any_event {
                         rep.violate(
                             "C18",
@@ -468,7 +518,7 @@ pub fn explore(p: &Params, rep: &mut Report) -> Outcome {
                     }
                 };
                 edges.push((sid, tid, a, allocated));
-                if hists.len() > p.max_states {
+                if hists.len() > p.max_states || (hists.len() % 1024 == 0 && t_start.elapsed().as_secs() > p.max_seconds) {
                     closed = false;
                     break 'outer;
                 }
@@ -603,6 +653,13 @@ pub fn periodic(p: &Params, period: usize, rounds: usize, rep: &mut Report) -> (
     for &n in &p.ns {
         alpha.push(RAct::Refill(n));
     }
+    if p.appends {
+        for &n in &p.ns {
+            for mode in 1..=6u8 {
+                alpha.push(RAct::RefillVia(n, mode));
+            }
+        }
+    }
     for f in [false, true] {
         alpha.push(RAct::Split(f));
         alpha.push(RAct::SplitTo(1, f));
@@ -628,7 +685,7 @@ pub fn periodic(p: &Params, period: usize, rounds: usize, rep: &mut Report) -> (
                 next.push(x);
             }
         }
-        words.extend(next.iter().filter(|w| w.iter().any(|a| matches!(a, RAct::Refill(_)))).cloned());
+        words.extend(next.iter().filter(|w| w.iter().any(|a| matches!(a, RAct::Refill(_) | RAct::RefillVia(..)))).cloned());
         level = next;
     }
     let mut steps = 0u64;
@@ -637,10 +694,23 @@ pub fn periodic(p: &Params, period: usize, rounds: usize, rep: &mut Report) -> (
         oracle::begin_execution(p.parity_odd);
         oracle::sys::set_crash_note(&format!("recycle periodic {:?}", w));
         let mut s = Sys::new(p);
-        let mut allocs_in_quarter = [0u64; 4];
-        let mut live_at = [0usize; 4];
+        // geometric windows of rounds: [0,R) warm-up, [R,2R), [2R,4R), [4R,8R)
+        let window = |r: usize| -> usize {
+            if r < rounds {
+                0
+            } else if r < 2 * rounds {
+                1
+            } else if r < 4 * rounds {
+                2
+            } else {
+                3
+            }
+        };
+        let mut allocs_in = [0u64; 4];
+        let mut peak_in = [0usize; 4];
+        let live_at = [0usize; 4];
         let mut broke = false;
-        for r in 0..rounds * 4 {
+        for r in 0..rounds * 8 {
             for &a in w {
                 if !s.enabled(p).contains(&a) {
                     continue;
@@ -648,9 +718,12 @@ pub fn periodic(p: &Params, period: usize, rounds: usize, rep: &mut Report) -> (
                 s.apply(a, p);
                 steps += 1;
                 if oracle::events().iter().any(|e| e.is_alloc && e.align == 1) {
-                    allocs_in_quarter[r / rounds] += 1;
+                    allocs_in[window(r)] += 1;
                 }
                 let live = oracle::live_bytes();
+                if live > peak_in[window(r)] {
+                    peak_in[window(r)] = live;
+                }
                 if live > limit {
                     rep.violate(
                         "C18",
@@ -665,21 +738,29 @@ pub fn periodic(p: &Params, period: usize, rounds: usize, rep: &mut Report) -> (
             if broke {
                 break;
             }
-            if (r + 1) % rounds == 0 {
-                live_at[r / rounds] = oracle::live_bytes();
-            }
             // the oracle allocator keeps freed crate blocks in quarantine until the execution ends;
             // release them now and then so that long runs stay small
             if r % 64 == 63 {
                 oracle::flush_quarantine();
             }
         }
-        if !broke && p.k == 0 && allocs_in_quarter.iter().all(|&x| x > 0) && allocs_in_quarter[3] * 2 >= allocs_in_quarter[1] {
+        // peak live memory must not grow with the number of rounds: a strictly increasing peak over three
+        // windows of doubling length that at least doubles is growth (a bounded system has long reached its cycle)
+        if !broke && peak_in[1] < peak_in[2] && peak_in[2] < peak_in[3] && peak_in[3] >= 2 * peak_in[1] {
+            rep.violate(
+                "C18",
+                "live-memory-grows",
+                &format!("peak live heap memory keeps growing with the number of rounds: {} / {} / {} bytes in rounds [{r},{r2}) / [{r2},{r4}) / [{r4},{r8}) of the periodic schedule {:?} | recycle[{}]", peak_in[1], peak_in[2], peak_in[3], w, p.name, r = rounds, r2 = 2 * rounds, r4 = 4 * rounds, r8 = 8 * rounds),
+                &format!("{{\"engine\":\"recycle-periodic\",\"params\":{:?},\"word\":\"{:?}\",\"rounds\":{}}}", p.name, w, rounds * 8),
+            );
+        }
+        // k = 0 (every part dropped before the next refill): byte-buffer allocations stop after the transient
+        if !broke && p.k == 0 && allocs_in[2] > 0 && allocs_in[3] > 0 {
             rep.violate(
                 "C18",
                 "allocation-count-grows",
-                &format!("every part is dropped before the next refill, yet byte-buffer allocations keep happening: {:?} allocations per {} rounds of the periodic schedule {:?} | recycle[{}]", allocs_in_quarter, rounds, w, p.name),
-                &format!("{{\"engine\":\"recycle-periodic\",\"params\":{:?},\"word\":\"{:?}\",\"rounds\":{}}}", p.name, w, rounds * 4),
+                &format!("every part is dropped before the next refill, yet byte-buffer allocations keep happening: {:?} allocations in rounds [0,{r}) / [{r},{r2}) / [{r2},{r4}) / [{r4},{r8}) of the periodic schedule {:?} | recycle[{}]", allocs_in, w, p.name, r = rounds, r2 = 2 * rounds, r4 = 4 * rounds, r8 = 8 * rounds),
+                &format!("{{\"engine\":\"recycle-periodic\",\"params\":{:?},\"word\":\"{:?}\",\"rounds\":{}}}", p.name, w, rounds * 8),
             );
         }
         let _ = live_at;
